@@ -92,4 +92,59 @@ theorem C02_arms_eq_variants (input : Enum) (ctx : ImplContext) (out : TS) (h : 
       intro n hn hv
       exact mapM_ok_getElem h1 n hv hn
 
+/-! ### whole `match`: the variant table, any number of variants -/
+
+/-- variant `v` is mapped plainly to the counterpart variant `x`: no variant-level instruction (then `x` is its own
+    name) or a rename without expression; no literal, no pattern -/
+def PlainVariant (ctx : ImplContext) (v : Variant) (x : String) : Prop :=
+  v.attrs.lit ctx.ty = none ∧ v.attrs.pat ctx.ty = none ∧
+  ((v.attrs.applicableAttr ctx.kind ctx.fallible ctx.ty = none ∧ x = v.ident) ∨
+   (∃ c, v.attrs.applicableAttr ctx.kind ctx.fallible ctx.ty = some (.field c) ∧ c.member = some (.named x) ∧ c.action = none))
+
+/-- C02 (whole From `match`): when every contributing variant is mapped plainly, the k-th arm matches the designated
+    counterpart variant `x_k` and builds the k-th variant — `Src::x_k <bindings> => Dst::V_k <payload>,` — in declaration
+    order, for any number of variants -/
+theorem C02_from_arm_table (ctx : ImplContext) (vs : List (Variant × String)) (arms : List TS)
+    (hk : ctx.kind.cls = .from_) (hall : ∀ t ∈ vs, PlainVariant ctx t.1 t.2)
+    (h : (vs.map (·.1)).mapM (renderEnumLine · ctx) = .ok arms) :
+    arms.length = vs.length ∧
+    ∀ k (hk1 : k < arms.length) (hk2 : k < vs.length),
+      ∃ destr init, arms[k] = ctx.srcTy ++ cc ++ [Tok.ident vs[k].2] ++ destr ++ fatArrow ++ ctx.dstTy ++ cc ++ [Tok.ident vs[k].1.ident] ++ init ++ [comma] := by
+  have hlen := mapM_ok_length h
+  rw [List.length_map] at hlen
+  refine ⟨hlen, ?_⟩
+  intro k hk1 hk2
+  have hkm : k < (vs.map (·.1)).length := by simpa using hk2
+  have harm := mapM_ok_getElem h k hkm hk1
+  simp only [List.getElem_map] at harm
+  obtain ⟨hl, hp, hhow⟩ := hall vs[k] (List.getElem_mem hk2)
+  rcases hhow with ⟨ha, hx⟩ | ⟨c, ha, hc, hact⟩
+  · obtain ⟨destr, init, hout⟩ := C02_default_arm vs[k].1 ctx arms[k] ha hl hp harm
+    exact ⟨destr, init, by rw [hx]; exact hout⟩
+  · exact C02_rename_from vs[k].1 ctx arms[k] c vs[k].2 hk ha hc hact hl hp harm
+
+/-- reading of a `match` on an enum value: the first arm whose pattern names the value's variant is taken -/
+def firstArm (table : List (String × String)) (x : String) : Option String := (table.find? (fun r => decide (r.1 = x))).map (·.2)
+
+/-- C02 (values): every counterpart variant `x_k` is converted to the variant that designates it; if two variants
+    designate the same counterpart variant, the one declared first wins; when the designation is injective, the
+    conversion hits exactly `V_k` — so `from (into V_k) = V_k` -/
+theorem C02_value_first_declared : ∀ (table : List (String × String)) (row : String × String), row ∈ table →
+    ∃ v, firstArm table row.1 = some v ∧ ((table.map (·.1)).Nodup → v = row.2)
+  | [], _, h => by simp at h
+  | r :: table, row, h => by
+    by_cases he : r.1 = row.1
+    · refine ⟨r.2, by simp [firstArm, List.find?, he], ?_⟩
+      intro hnd
+      rcases List.mem_cons.mp h with rfl | h'
+      · rfl
+      · have hnot : r.1 ∉ table.map (·.1) := (List.nodup_cons.mp (by simpa using hnd)).1
+        exact absurd (List.mem_map.mpr ⟨row, h', he.symm⟩) hnot
+    · have h' : row ∈ table := by
+        rcases List.mem_cons.mp h with rfl | h'
+        · exact absurd rfl he
+        · exact h'
+      obtain ⟨v, hv, hn⟩ := C02_value_first_declared table row h'
+      refine ⟨v, by simpa [firstArm, List.find?, he] using hv, fun hnd => hn (List.nodup_cons.mp (by simpa using hnd)).2⟩
+
 end O2o
